@@ -262,7 +262,7 @@ fn random_tree(r: &mut SplitMix64, depth: u32, atoms: usize) -> CT {
 
 pub fn run(ctx: &mut Ctx) {
     let thorough = ctx.tier_thorough;
-    ctx.rule = format!("bounded-exhaustive: all condition trees of depth <= {} / width <= 2 (every any/all, every negate flag, empty groups, add_option(None) members) as 1-call histories on all 8 statement positions (SELECT WHERE / HAVING, UPDATE, DELETE, JOIN ON, CASE WHEN, ON CONFLICT target/action WHERE) x 3 backends, all ordered pairs of depth-1 trees as 2-call histories, then {} random histories (<= 4 calls, depth <= 4, width <= 3). Each: rendered predicate parsed by an independent SQL predicate parser and compared with the model's expression tree, and its 3-valued truth table (all 3^k assignments, k <= 4 atoms) compared with the AND of the supplied conditions. Non-trivial = non-empty history; distinct by request.", if thorough { 3 } else { 2 }, if thorough { 60000 } else { 6000 });
+    ctx.rule = format!("bounded-exhaustive: all condition trees of depth <= {} / width <= 2 (every any/all, every negate flag, empty groups, add_option(None) members) as 1-call histories on all 8 statement positions (SELECT WHERE / HAVING, UPDATE, DELETE, JOIN ON, CASE WHEN, ON CONFLICT target/action WHERE) x 3 backends, all ordered pairs of depth-1 trees as 2-call histories, then {} random histories (<= 4 calls, depth <= 4, width <= 3). Each: rendered predicate parsed by an independent SQL predicate parser and compared with the model's expression tree, and its 3-valued truth table (all 3^k assignments, k <= 4 atoms) compared with the AND of the supplied conditions. Non-trivial = non-empty history; distinct by request.", 2, if thorough { 60000 } else { 6000 });
     if let Some(rp) = ctx.replay.clone() {
         // replay by history S-expression is not parsed back here; the random stream is deterministic by seed
         let _ = rp;
@@ -270,12 +270,13 @@ pub fn run(ctx: &mut Ctx) {
     let all_b = B::all();
     check_history(ctx, &[], &KINDS, &all_b);
     let mut na = 0;
-    let depth = if thorough { 3 } else { 2 };
+    // depth 3 is doubly exponential (tens of GB of trees): the thorough tier checks every depth-2 tree in every position instead and samples deeper trees below
+    let depth = 2;
     let trees = enum_trees(depth, 2, &mut na, 4);
     ctx.count(&format!("trees.depth{depth}={}", trees.len()));
     for (i, t) in trees.iter().enumerate() {
         // all positions for a slice, the WHERE position for all
-        if i % 7 == 0 { check_history(ctx, &[t.clone()], &KINDS, &all_b); }
+        if thorough || i % 7 == 0 { check_history(ctx, &[t.clone()], &KINDS, &all_b); }
         else { check_history(ctx, &[t.clone()], &["select_where"], &[B::Sqlite]); }
     }
     let mut nb = 0;
